@@ -13,10 +13,10 @@ package auth
 // The `best-effort` lines are documentation (parsed, no obligation): they list the storage calls whose failure is
 // deliberately not reported, with the source line that says so.
 
-// Clauses that FAIL on the current code (candidate findings; demonstrations in
+// FIXED (commit 487fd07; the obligations discharge now): casUpdatePrincipal/propagates/Save#1 (a non-CAS Save error was returned
+// as nil) and casUpdatePrincipal/post/retries-exhausted (nil after PrincipalUpdateMaxCasRetries lost CAS races).
+// Clauses that FAIL on the current code (known findings; demonstrations in
 // /verif/findings/C11_casUpdatePrincipal_swallowed_save_error_test.go):
-//   casUpdatePrincipal/propagates/Save#1      a non-CAS Save error is returned as nil (auth.go:713 returns the shadowed, nil err)
-//   casUpdatePrincipal/post/retries-exhausted nil after PrincipalUpdateMaxCasRetries lost CAS races (auth.go:696/735: outer err never assigned)
 //   DeleteSessionForCookie/post/logout-durable the expired cookie (=> HTTP 200) is returned although the session document was not deleted
 //   Save/post/nothing-written-on-error        error after the principal document was written (e-mail lookup Set failed, auth.go:420)
 //   DeleteUser/post/nothing-deleted-on-error  error after the e-mail lookup document was deleted (auth.go:740 before 744)
@@ -50,6 +50,7 @@ package auth
 //@   modifies *
 //@   only-contracts IsCasMismatch, Errorf
 //@   propagates Save#1 GetUser#1 GetRole#1
+//@   loop 1 invariant[cas-pending] i > 1 ==> !isNilErr(err)   // err = the CAS-mismatch error of the previous attempt
 //@   ensures[callback-error] called(dynamic, 1) && !isNilErr(callres(dynamic, 1, 1)) && callres(dynamic, 1, 1) != box(base.ErrUpdateCancel) ==> !isNilErr(result)
 //@   ensures[save-attempted] isNilErr(result) && i <= PrincipalUpdateMaxCasRetries ==> called(dynamic, 1) && (callres(dynamic, 1, 1) == box(base.ErrUpdateCancel) || called(Save, 1))
 //@   ensures[retries-exhausted] i > PrincipalUpdateMaxCasRetries ==> !isNilErr(result)
